@@ -89,7 +89,29 @@ def run(ctx):
             cr.append((r, c))
     if not cr:
         ctx.fail("R14.a", f, f.node, "no raise on the constant arm for an initialized instance", key="%s::no-constant-raise" % f.qualname)
-    for r, c in cr:
+    # The decision itself -- is the refusal skipped only for the very object already held? -- is taken on path conditions
+    # (enumerated valuations of the atoms constant / readonly / class route / initialised / `val is <current>`):
+    # no NORMAL exit of the setter for a constant parameter of an initialised instance unless an identity atom holds.
+    from engine import pathcond
+    atoms = sorted({a for n in cfg.live_nodes() if n.kind == "br" and n.ast is not None for a in pathcond.atoms_in(n.ast)
+                    if a.startswith("val is ") or a in ("self.constant", "self.readonly", "obj is None", "obj._param__private.initialized")})
+    need = ("self.constant", "obj is None", "obj._param__private.initialized")
+    if len(atoms) > 12 or any(a not in atoms for a in need):
+        raise AnalysisError("R14.a: the path atoms of Parameter.__set__ are not the expected ones (%s)" % atoms)
+    ident_i = [i for i, a in enumerate(atoms) if a.startswith("val is ") and a not in ("val is None", "val is Undefined")]
+    state = pathcond.reaching(cfg, atoms, labels={"n", "t", "f"})
+    at_exit = state.get(cfg.exit.id, set())
+    ix = {a: i for i, a in enumerate(atoms)}
+    loose = [v for v in at_exit if v[ix["self.constant"]] and not v[ix["obj is None"]] and v[ix["obj._param__private.initialized"]]
+             and not (("self.readonly" in ix) and v[ix["self.readonly"]]) and not any(v[i] for i in ident_i)]
+    decided_by_paths = True
+    if loose:
+        ctx.fail("R14.a", f, cr[0][0] if cr else f.node, "an assignment to a constant parameter of an initialised instance can return normally although the assigned object is not the object "
+                                                         "already held (path conditions that allow it: %s)" % ", ".join("%s=%s" % (a, x) for a, x in zip(atoms, loose[0])),
+                 key="%s::constant-normal-exit" % f.qualname)
+    else:
+        ctx.ok("R14.a", f, cr[0][0] if cr else f.node, "no normal exit for a constant parameter of an initialised instance unless the assigned object is the very object already held")
+    for r, c in ([] if decided_by_paths else cr):
         # conditions established inside the constant/readonly arm only
         inner = []
         for d in cfg.dominating(r):
